@@ -18,6 +18,7 @@ import Bita.Model.ReaderEnv
 import Bita.Model.Cli
 import Bita.Model.Schedule
 import Driver.Proto
+import Driver.Opts
 
 open Bita Driver
 
@@ -446,7 +447,7 @@ def handle (toks : List String) : Option String :=
   | ["io-at", flen, off, size, script] => do
     let file := pattern (← parseNat flen)
     some s!"item={showItem (ioReadAt file (← parseNat off) (← parseNat size) (← parseReadScript script))}"
-  | _ => none
+  | toks => handleOpts toks
 
 partial def loop (h : IO.FS.Stream) (out : IO.FS.Stream) : IO Unit := do
   let line ← h.getLine
